@@ -1,6 +1,16 @@
 H("c04_span_export", "C04", "seq", ["harness/c04_span_export.cc"], sdk=["common", "version", "resource", "trace"],
   what="real TracerProvider with 1..3 processors (SimpleSpanProcessor, deferred-export processor) whose exporters keep the SpanData: every span program "
-       "up to the depth bound over start options / SetAttribute / AddEvent (8 entry points) / SetStatus / UpdateName / End(with, without time), "
-       "including every operation after End, all ordered value pairs on one key, all start-option combinations; caller storage scribbled (pass 1) "
-       "and freed (pass 2) after every call; compared field by field with a reference model at every exporter",
+       "up to the depth bound over start options / SetAttribute / AddEvent (8 entry points) / SetStatus / UpdateName / End(with, without time) / "
+       "TracerProvider::AddProcessor while the span runs, including every operation after End, all ordered value pairs on one key, all start-option "
+       "combinations, a sampler that returns attributes; caller storage scribbled (pass 1) and freed (pass 2) after every call; compared field by field "
+       "with a reference model at every exporter",
+  design_ref="5/C04")
+# Span::AddLink / AddLinks and instrumentation-scope attributes only exist under ABI v2: the same source (and the SDK) compiled a second
+# time with the ABI macro redefined (same flags as c17_syncgauge); this build runs only the programs the ABI v1 build cannot.
+H("c04_span_export_abi2", "C04", "seq", ["harness/c04_span_export.cc"], sdk=["common", "version", "resource", "trace"],
+  cxxflags=["-UOPENTELEMETRY_ABI_VERSION_NO", "-DOPENTELEMETRY_ABI_VERSION_NO=2"],
+  what="ABI v2 build of the same harness: every span program up to the depth bound over Span::AddLink (4 entry points) / AddLinks (3 entry points) mixed with "
+       "SetAttribute / AddEvent / SetStatus / UpdateName / End / AddProcessor, before and after End, from start shapes with and without start links; tracers "
+       "obtained with instrumentation-scope attributes (and a sibling tracer that differs only in them); links must be exported in call order after the start "
+       "links with their own attributes as owned copies, scope attributes as given",
   design_ref="5/C04")
